@@ -92,6 +92,7 @@ PROPS = {
                       "getter reads, with the registered type and width' and 'a refused value leaves the object unchanged' for all paths of the setters.",
         "level_note": "direct stores and mem* writes into the object are effects; writes made by callees that receive &obj->field are attributed to the callee's own result (not counted)",
         "rules": [
+            {"run": rules_ident.run_convnarrow, "floor": 1, "use_anchor_files": True},
             {"run": rules_layout.run_terminated, "floor": 1},
             {"run": rules_layout.run_flagpath, "floor": 1},
             {"run": rules_layout.run_proptable, "floor": 100},
@@ -163,6 +164,7 @@ PROPS = {
         "level_text": "Decides that the fragment cursor never leaves the fragment list and every loop terminates on its own exit test, for all 10 message files; not the value equivalence.",
         "level_note": "companion count inferred from struct message fields (cont/clen), locals loaded from them, or the integer parameter following an iovec parameter",
         "rules": [
+            {"run": rules_path.run_fragstate, "floor": 1, "use_anchor_files": True},
             {"run": rules_path.run_fragall, "floor": 3, "use_anchor_files": True},
             {"run": rules_path.run_arraybound, "floor": 2, "use_anchor_files": True},
             {"run": rules_path.run_steppair, "floor": 1, "use_anchor_files": True},
@@ -232,6 +234,7 @@ PROPS = {
         "level_text": "Decides the link-pairing clauses (every child names its parent after each attach; moved lists have one owner; destroy/clear guards) for every site in the build.",
         "level_note": "idiom list frozen from today's 21 sites, one reason each; anything else is reported",
         "rules": [
+            {"run": rules_lin.run_linnode, "floor": 4, "use_anchor_files": True},
             {"run": rules_node.run_childparent, "floor": 18},
             {"run": rules_node.run_destroy_guard, "floor": 4},
             {"run": rules_path.run_uaf, "floor": 5, "use_anchor_files": True},
@@ -251,6 +254,7 @@ PROPS = {
                       "object kind tears down only at zero (8 kinds); replacement sites release the old referent.",
         "level_note": "vtable slots are resolved from static initialisers; counted kinds are those whose addref implementation calls the raise primitive",
         "rules": [
+            {"run": rules_ref.run_raisefail, "floor": 1},
             {"run": rules_ref.run_lowerfail, "floor": 1},
             {"run": rules_ref.run_reforder, "floor": 1, "use_anchor_files": True},
             {"run": rules_ref.run_refwrite, "floor": 10},
@@ -320,6 +324,7 @@ PROPS = {
         "level_text": "Decides the path-element clause (element lengths across the 255 limit are rejected or escaped) and memory-discipline necessary conditions of the store.",
         "level_note": "",
         "rules": [
+            {"run": rules_path.run_queryrest, "floor": 5},
             {"run": rules_lin.run_linpath, "floor": 10},
             {"run": rules_ident.run_narrow, "floor": 4, "use_anchor_files": True, "ctx": {"records": ["mpt_path", "path"]}},
             {"run": rules_path.run_usednotsize, "floor": 2, "use_anchor_files": True},
